@@ -462,7 +462,10 @@ def load_findings():
     out = []
     p = os.path.join(VERIF, "known_findings.json")
     if os.path.isfile(p):
-        out += json.load(open(p)).get("findings", [])
+        doc = json.load(open(p))
+        out += doc.get("findings", [])
+        if doc.get("merged"):
+            return out          # the single merged file already holds every group's entries
     d = os.path.join(VERIF, "known_findings.d")
     if os.path.isdir(d):
         for n in sorted(os.listdir(d)):
